@@ -41,6 +41,11 @@ PathText(cs, d) == IF cs # <<>> /\ cs[1] = d /\ Len(cs) > 1
 MatchStr(needleText, path, d) ==
     \E k \in 1..Len(path) : needleText = PathText(LastN(path, k), d)
 
+(* The texts that denote `path`: by definition                             *)
+(*     t \in SuffixTexts(path, d)  <=>  MatchStr(t, path, d)               *)
+(* (PathIndex.tla checks this equivalence entry by entry on its universe). *)
+SuffixTexts(path, d) == {PathText(LastN(path, k), d) : k \in 1..Len(path)}
+
 (* str::split as Rust defines it: scan left to right, cut at every         *)
 (* non-overlapping occurrence of the (non-empty) delimiter; always yields  *)
 (* at least one (possibly empty) piece.                                    *)
